@@ -186,10 +186,29 @@ func (rt *runtime) cmplEvaluateNodeForInStatement(node *nodeForInStatement) Valu
 	body := node.body
 
 	result := emptyValue
-	obj := sourceObject
-	for obj != nil {
-		enumerateValue := emptyValue
-		obj.enumerate(false, func(name string) bool {
+	// Names already met on the prototype chain: a property is visited once,
+	// and an own property (enumerable or not) shadows inherited ones (ES5 12.6.4).
+	visited := map[string]struct{}{}
+	for obj := sourceObject; obj != nil; obj = obj.prototype {
+		var names []string
+		obj.enumerate(true, func(name string) bool {
+			names = append(names, name)
+			return true
+		})
+		for _, name := range names {
+			if _, exists := visited[name]; exists {
+				continue
+			}
+			prop := obj.getOwnProperty(name)
+			if prop == nil {
+				// Deleted before it was visited.
+				continue
+			}
+			visited[name] = struct{}{}
+			if !prop.enumerable() {
+				continue
+			}
+
 			into := rt.cmplEvaluateNodeExpression(into)
 			// In the case of: for (var abc in def) ...
 			if into.reference() == nil {
@@ -198,33 +217,24 @@ func (rt *runtime) cmplEvaluateNodeForInStatement(node *nodeForInStatement) Valu
 				into = toValue(getIdentifierReference(rt, rt.scope.lexical, identifier, false, -1))
 			}
 			rt.putValue(into.reference(), stringValue(name))
+		body:
 			for _, node := range body {
 				value := rt.cmplEvaluateNodeStatement(node)
 				switch value.kind {
 				case valueResult:
 					switch value.evaluateBreakContinue(labels) {
 					case resultReturn:
-						enumerateValue = value
-						return false
+						return value
 					case resultBreak:
-						obj = nil
-						return false
+						return result
 					case resultContinue:
-						return true
+						break body
 					}
 				case valueEmpty:
 				default:
-					enumerateValue = value
+					result = value
 				}
 			}
-			return true
-		})
-		if obj == nil {
-			break
-		}
-		obj = obj.prototype
-		if !enumerateValue.isEmpty() {
-			result = enumerateValue
 		}
 	}
 	return result
